@@ -205,8 +205,13 @@ class Sched:
         p.state = 'running'
 
     def sleep(self):
-        """A modelled long sleep: everybody else runs until blocked first."""
+        """A modelled sleep.  Under the cooperative policies everybody else runs until blocked first (the sleep is "long enough"); under the
+        stall / random policies it is an ordinary preemption point - a sleep guarantees nothing about what another thread has done meanwhile,
+        so code that relies on one for synchronisation fails under some schedule."""
         p = self.current
+        if self.policy.startswith(('stall:', 'rand:')):
+            self.yield_()
+            return
         p.low_priority = True
         try:
             self.yield_()
